@@ -19,6 +19,25 @@ Theorem resolve_perm_invariant : forall cs cs' q,
 Proof. exact ResolveFacts.resolve_perm_invariant_lemma. Qed.
 Print Assumptions resolve_perm_invariant.
 
+(* the same theorem under the name used in the seeded-change report: the verdict of the model's
+   resolve (selected overload with bindings and effective rank — which includes the
+   defaults-used term —, ambiguity with its tied set, no match, escaping exception) is invariant
+   under EVERY permutation of the registration order *)
+Theorem resolve_permutation_invariant : forall cs cs' q,
+  Permutation cs cs' -> outcome_equiv (resolve cs q) (resolve cs' q).
+Proof. exact ResolveFacts.resolve_perm_invariant_lemma. Qed.
+Print Assumptions resolve_permutation_invariant.
+
+(* a candidate's verdict (accept with map and effective rank / reject / raise) is a function of the
+   candidate and the query alone: nothing is carried over from the candidates tried before it.
+   (This is what makes the theorem above possible; in the code it is the freshness of
+   NormalizedCall / ResolutionMap / rank_adjustment per loop iteration.) *)
+Theorem survivor_verdict_is_local : forall cs1 cs2 c q l,
+  collect (cs1 ++ c :: cs2) q = Some l ->
+  forall m k, try_match c q = TMOk m k -> In (c, m, k) l.
+Proof. exact ResolveFacts.collect_local. Qed.
+Print Assumptions survivor_verdict_is_local.
+
 (* ---- which outcome ---------------------------------------------------------------------- *)
 
 (* s is selected iff it is a surviving candidate whose rank is strictly below the rank of
@@ -123,17 +142,30 @@ Print Assumptions bind_rejects_inconsistent_rebinding.
    accepts its argument under the one final map (every type variable has one type across
    all positions); a requested output is accepted by the output pattern; the output
    pattern resolves; the output_required flag is honoured; the effective rank is the
-   candidate's rank plus at most one per argument. *)
+   candidate's rank plus the number of defaults used plus at most one per argument.
+   [nargs] is the normalised call (see [normalize_call_spec]). *)
 Theorem accepted_candidate_matches : forall c q m k,
   try_match c q = TMOk m k ->
+  exists nargs dused,
+  normalize (c_defaults c) (q_args q) = Some (nargs, dused) /\
   extends (q_init q) m /\
-  Forall2 (arg_inst m) (c_params c) (q_args q) /\
+  Forall2 (arg_inst m) (c_params c) nargs /\
   (c_has_out c = true -> exists t, tresolve (c_out c) m = Some t) /\
   (c_has_out c = true -> forall e, q_expected q = Some e -> oinst m (c_out c) e = true) /\
   (forall b, q_outreq q = Some b -> c_has_out c = b) /\
-  c_rank c <= k <= c_rank c + Z.of_nat (length (c_params c)).
+  c_rank c + dused <= k <= c_rank c + dused + Z.of_nat (length (c_params c)).
 Proof. exact ResolveMatchFacts.try_match_sound_lemma. Qed.
 Print Assumptions accepted_candidate_matches.
+
+(* normalize_call: the normalised call is the supplied arguments followed by the declared
+   defaults of the omitted trailing parameters — one argument per parameter — and defaults_used
+   is exactly the number of omitted parameters *)
+Theorem normalize_call_spec : forall defs al nargs k,
+  normalize defs al = Some (nargs, k) ->
+  exists suffix, nargs = al ++ suffix /\ k = Z.of_nat (length suffix) /\ length nargs = length defs /\
+                 Forall (fun a => In (Some a) defs) suffix.
+Proof. exact ResolveMatchFacts.normalize_spec. Qed.
+Print Assumptions normalize_call_spec.
 
 (* the selection is a registered candidate together with the result of its own match *)
 Theorem selected_is_a_matching_candidate : forall cs q s,
@@ -169,11 +201,12 @@ Print Assumptions substitution_gives_argument_type.
 (* for an accepted candidate: each substituted parameter pattern accepts its argument *)
 Theorem selected_params_accept_arguments : forall c q m k,
   try_match c q = TMOk m k ->
+  exists nargs dused, normalize (c_defaults c) (q_args q) = Some (nargs, dused) /\
   Forall2 (fun pr a => match pr, a with
                        | PIn p, ATs t => forall t', tresolve p m = Some t' -> accepts_in t' t = true
                        | PScal sp, ASc v => forall s', sresolve sp m = Some s' -> srel s' v = true \/ coercible v s' = true
                        | _, _ => True
-                       end) (c_params c) (q_args q).
+                       end) (c_params c) nargs.
 Proof. exact ResolveSubstFacts.selected_params_accept_arguments_lemma. Qed.
 Print Assumptions selected_params_accept_arguments.
 
@@ -253,6 +286,23 @@ Example c19_selects_most_specific :
   resolve [ex_generic_ts; ex_generic_scalar] ex_query = OSel (ex_generic_scalar, mkR [] [(1, SAtom 1)] [], 101) /\
   output_of (ex_generic_scalar, mkR [] [(1, SAtom 1)] [], 101) = Some ts_int.
 Proof. vm_compute. repeat split; auto. intros cs [<-|[<-|[<-|[]]]]; reflexivity. Qed.
+
+(* defaulted parameters (the family of seeded change C19w2-defaults-counter-leaks-across-candidates):
+   X(ts), Y(ts, k: int = 1), D(ts, a: int = 1, b: int = 2); each default used costs 1, so a call
+   (TS[int]) selects X (ranks 0 / 1 / 2), (TS[int], 5) selects Y (X takes no second argument;
+   Y 0, D 1), (TS[int], 5, 6) selects D — in all six registration orders *)
+Definition ex_int_default : param * option arg := (PScal (PSConc (SAtom 1)), Some (ASc (SAtom 1))).
+Definition ex_X : cand := mk_cand_d 1 true (PConc ts_int) [(PIn (PConc ts_int), None)].
+Definition ex_Y : cand := mk_cand_d 2 true (PConc ts_int) [(PIn (PConc ts_int), None); ex_int_default].
+Definition ex_D : cand := mk_cand_d 3 true (PConc ts_int) [(PIn (PConc ts_int), None); ex_int_default; ex_int_default].
+Example c19_defaults_all_six_orders :
+  forall cs, In cs [[ex_X; ex_Y; ex_D]; [ex_X; ex_D; ex_Y]; [ex_Y; ex_X; ex_D]; [ex_Y; ex_D; ex_X]; [ex_D; ex_X; ex_Y]; [ex_D; ex_Y; ex_X]] ->
+    resolve cs (mkQuery (Some true) None empty_rmap [] [ATs ts_int]) = OSel (ex_X, empty_rmap, 0) /\
+    resolve cs (mkQuery (Some true) None empty_rmap [] [ATs ts_int; ASc (SAtom 1)]) = OSel (ex_Y, empty_rmap, 0) /\
+    resolve cs (mkQuery (Some true) None empty_rmap [] [ATs ts_int; ASc (SAtom 1); ASc (SAtom 1)]) = OSel (ex_D, empty_rmap, 0) /\
+    resolve cs (mkQuery (Some true) None empty_rmap [] [ATs (TTs (SAtom 3))]) = ONoMatch /\
+    try_match ex_D (mkQuery (Some true) None empty_rmap [] [ATs ts_int]) = TMOk empty_rmap 2.
+Proof. intros cs H. repeat (destruct H as [<-|H]; [vm_compute; repeat split; reflexivity|]). destruct H. Qed.
 
 (* an ambiguity (two overloads equal up to variable renaming), a no-match, and the escaping exception *)
 Example c19_ambiguous_nomatch_error :
